@@ -6,6 +6,7 @@
    approval timers of a disconnected peer are the business of the approval model (C12). *)
 From Verif Require Import Base.Prelude Model.Stack Spec.StackObs Spec.C10Spec
   Proofs.StackLemmas Proofs.StackInv Proofs.C10Events Proofs.C10Core Proofs.C10Client Proofs.C10Proofs.
+From Verif Require Import Model.StackX Spec.StackXSpec.
 
 (* For every history of operations (local tree construction, connects and reconnects, discovery
    replies and partial notifications adding and removing entities, subscribe / unsubscribe /
@@ -161,6 +162,46 @@ Definition c10_foreign_address : list op :=
 Example C10_entity_under_foreign_address_repaired :
   map snd (skipn 8 (snd (run init c10_foreign_address))) = [ [ORetB true] ] /\
   strictly_accepted (judge minit sinit (snd (run init c10_foreign_address))) = true.
+Proof. vm_compute. split; reflexivity. Qed.
+
+(* ---------- "... including while messages of other peers are being processed" ---------- *)
+
+(* Histories may contain [During a b] (Model/StackX.v): while the teardown a of peer p runs
+   (Disconnect p, or a discovery notification / reply of p that removes entities), the subscribe /
+   bind / unsubscribe / unbind call b of another peer q is delivered on q's connection.  The
+   registries hold their mutex across a whole Remove...ForEntity, so the call waits and takes effect
+   afterwards: the model is the teardown followed by the call (overlap_is_sequential), and every
+   clause is judged on the observations split into the teardown's and the call's.  In particular
+   the entry q obtained with a success result is in q's next listing and is served by the next
+   data change; a teardown that writes back a stale snapshot of the registry violates
+   listing-after-teardown / fan-out-after-teardown. *)
+Theorem C10_overlap_trace_accepted_partial : forall xops,
+  accepted (xjudge10 minit sinit (snd (xrun init xops))) = true.
+Proof. exact xrun_accepted. Qed.
+Print Assumptions C10_overlap_trace_accepted_partial.
+
+Theorem C10_overlap_registry_teardown_full : forall xops,
+  only_client (xjudge10 minit sinit (snd (xrun init xops))) = true.
+Proof. exact xrun_only_client. Qed.
+Print Assumptions C10_overlap_registry_teardown_full.
+
+(* Non-vacuity of the overlap: peer 2's subscription arrives during the removal of peer 1 (which has
+   a subscription): both the removal of peer 1's entry and the grant to peer 2 are observed, peer
+   2's listing shows its entry, the next data change reaches peer 2 only. *)
+Definition scall (d : N) : reg_call := {| rc_cli := a (Some d) [1%N] 1; rc_srv := a (Some 0%N) [1%N] 1; rc_type := Some 1%N |}.
+Definition c10_overlap_example : list xop :=
+  map Base [ AddLocalEntity [1%N]; AddLocalFeature [1%N] 1 RServer; AddFunction [1%N] 1 1 true true;
+             Connect 1; DiscoveryReply 1 (tree 1); Connect 2; DiscoveryReply 2 (tree 2); SubCall 1 11 false (scall 1) ] ++
+  [ During (Disconnect 1) (SubCall 2 21 true (scall 2)); Base (ListSubs 2); Base (SetData [1%N] 1 1 77) ].
+Example C10_overlap_nonvacuous :
+  map snd (skipn 8 (snd (xrun init c10_overlap_example))) =
+    [ [OEvent EvSub ChRemove 1 (Some [1%N]) (Some (a (Some 1%N) [1%N] 1)) (Some (a (Some 0%N) [1%N] 1));
+       OEvent EvDevice ChRemove 1 None None None;
+       OEvent EvSub ChAdd 2 (Some [1%N]) (Some (a (Some 2%N) [1%N] 1)) (Some (a (Some 0%N) [1%N] 1));
+       OResult 2 21 false (a (Some 0%N) [0%N] 0) (a (Some 2%N) [0%N] 0)];
+      [OEntry 2 (a (Some 0%N) [1%N] 1) (a (Some 2%N) [1%N] 1)];
+      [ONotify 2 (a (Some 0%N) [1%N] 1) (a (Some 2%N) [1%N] 1) 1 77] ] /\
+  strictly_accepted (xjudge10 minit sinit (snd (xrun init c10_overlap_example))) = true.
 Proof. vm_compute. split; reflexivity. Qed.
 
 (* Non-vacuity: two peers with identical entity / feature numbers subscribe and bind; peer 1 is
